@@ -5,5 +5,6 @@ cd "$(dirname "$0")"
 export CARGO_NET_OFFLINE=true
 python3 tools/extract_consts.py >/dev/null
 (cd lean && lake build SV svdriver)
+sed 's#@REPO@#/repo#g' harness/Cargo.toml.in > harness/Cargo.toml
 cp -n /repo/Cargo.lock harness/Cargo.lock 2>/dev/null || true
 (cd harness && cargo build --release --offline)
